@@ -40,7 +40,7 @@ ASSUMPTIONS = [
 ]
 
 K_FALSE_NO_D14 = "is_lc_equivalent:solution_dim>=5:false-negative"
-K_FIND_LC = "find_lc_operations:uses-target-adjacency:wrong-sequence"
+K_FIND_LC = "find_lc_operations:wrong-sequence"
 K_D40 = "lc_check:state_to_graph:position_finder:AssertionError"
 FUEL = 400
 
@@ -354,15 +354,6 @@ def check_pair(res, drv, orb, A, B, modes=("deterministic",), seed=0, deep=True,
         elif kind in ("seq", "find"):
             seq, serr = data
             want = f"err {serr}" if serr is not None else f"ok seq={gu.seq_str(seq)}"
-            if kind == "find" and rep["_raw"] != want and serr is None and np.array_equal(gu.apply_seq_ref(A, seq), np.asarray(B)):
-                # region of known finding D42 (the model mirrors the defect): if the implementation now builds the R matrix
-                # from the first graph it must agree with the model of the repaired function — noted, no alarm (DESIGN §6)
-                rep2 = drv.ask(f"lc.find {inp['a']} {inp['b']} mode=det fuel={FUEL} fixed=1")
-                if rep2["_raw"] == want:
-                    if K_FIND_LC not in res.known_gone:
-                        res.known_gone.append(K_FIND_LC)
-                    res.traces_validated += 1
-                    continue
             if rep["_raw"] != want:
                 res.exact_break(f"lc.{kind}", input=inp, impl=want, model=rep["_raw"][:300])
             else:
@@ -585,6 +576,33 @@ def random_pairs(res, drv, orb, rng, count, nmin, nmax, modes, deep=True):
         check_pair(res, drv, orb, A, B, modes=modes, seed=rng.randrange(100), deep=deep, label=f"random n={n}", want_system=rng.random() < 0.3)
 
 
+def check_iso_equal(res, drv, orb, rng, count):
+    """iso_equal_check(g1, g2): "g1 is LC-equivalent to some graph isomorphic to g2" — direct oracle on `True` answers: the
+    returned graph is isomorphic to g2 and lies in the LC orbit of g1 (a `False` may be a D14 false negative and is only counted)"""
+    from graphiq.backends.lc_equivalence_check import iso_equal_check
+
+    for _ in range(count):
+        n = rng.randrange(2, 5)
+        A = gu.structured_graph(rng, n)
+        B = gu.permute(gu.random_lc_walk(rng, A, rng.randrange(0, 5))[0], gu.random_perm(rng, n)) if rng.random() < 0.7 else gu.structured_graph(rng, n)
+        inp = {"a": gu.adj_args(A), "b": gu.adj_args(B, "b", with_n=False)}
+        try:
+            ok, G = iso_equal_check(gu.to_graph(A), gu.to_graph(B))
+        except Exception as e:  # noqa: BLE001
+            gu.viol(res, f"iso_equal_check:raises:{err_class(e)}", "iso_equal_check raised on two graphs", input=inp)
+            continue
+        res.evaluations += 1
+        res.branch([f"iso_equal_check:{'yes' if ok else 'no'}"])
+        if ok:
+            g = gu.to_adj(G)
+            iso = drv.ask(f"graph.iso {gu.adj_args(g)} b={gu.bits(B)}").get("iso") == "1"
+            if not iso or not orb.same_orbit(A, g):
+                gu.viol(res, "iso_equal_check:wrong-witness", "the returned graph must be isomorphic to the second graph and LC-equivalent to the first", input=inp, impl=gu.bits(g))
+            else:
+                res.traces_validated += 1
+                res.nontrivial("iso_equal", inp["a"], inp["b"])
+
+
 def malformed(res, drv, rng):
     """different sizes, unknown mode"""
     from graphiq.backends import lc_equivalence_check as lce
@@ -633,6 +651,7 @@ def run(ctx):
     random_pairs(res, drv, orb, rng, 150 if ctx.quick else 1500, 2, 6, ("deterministic", "random"))
     random_pairs(res, drv, orb, rng, 12 if ctx.quick else 150, 7, 9 if ctx.quick else 12, ("deterministic", "random"))
     check_tableau_inputs(res, drv, orb, rng, 150 if ctx.quick else 1500, 5 if ctx.quick else 6)
+    check_iso_equal(res, drv, orb, rng, 60 if ctx.quick else 600)
     if not ctx.quick:
         exhaustive_n5_sharded(ctx, res)
     res.extra["driver_lines"] = drv.n_lines
@@ -648,7 +667,7 @@ def search(ctx, res, proof_broken):
         exhaustive_pairs(res, drv, orb, n)
         if res.violations:
             break
-    if not [v for v in res.violations if v["key"] not in (K_FALSE_NO_D14, K_FIND_LC, K_D40)]:
+    if not [v for v in res.violations if v["key"] not in (K_FALSE_NO_D14, K_D40)]:
         random_pairs(res, drv, orb, ctx.rng, 600, 2, 6, ("deterministic", "random"))
         check_local_comp(res, drv, [gu.graph_of_mask(5, m) for m in range(0, 1024, 3)], "search n=5")
     drv.close()
